@@ -349,6 +349,75 @@ class LongHistory(Part):
         return res
 
 
+class FilePipeline(Part):
+    name = "file_pipeline_spellings"
+    desc = "addresses in every spelling through FileAnonymizer: the applied mapping is one prefix-preserving map per family"
+
+    def __init__(self, tier, seed):
+        self.tier, self.seed = tier, seed
+
+    def cases(self):
+        return [{"salt": s, "B": B} for s in ("saltForTest", "seed%d" % self.seed) for B in (0, 8)]
+
+    def run(self, case):
+        import io
+        import ipaddress
+
+        from netconan.anonymize_files import FileAnonymizer
+        from mc import seams
+
+        res = Res()
+        v6 = set(ipdom.v6_window(self.seed, 3)[::6])
+        # neighbours inside ::ffff:0:0/96, 64:ff9b::/96 and ::/96, to be spelled with dotted tails
+        for base in ("::ffff:11.22.33.44", "64:ff9b::198.51.100.77", "::172.20.9.5", "2001:db8::8.8.4.4"):
+            b = int(ipaddress.IPv6Address(base))
+            v6.update({b, b ^ 1, b ^ 0x100, b ^ 0x10000, b ^ (1 << 31), b ^ (1 << 40)})
+        toks = []
+        for a in sorted(v6):
+            ip = ipaddress.IPv6Address(a)
+            sp = [str(ip), ip.exploded.upper()]
+            hi = ":".join(ip.exploded.split(":")[:6])
+            dotted = "%s:%s" % (hi, ipaddress.IPv4Address(a & 0xFFFFFFFF))
+            sp.append(dotted)
+            for t in sp:
+                if t:
+                    toks.append((a, t))
+        text = "".join("peer %s end\n" % t for _, t in toks)
+        with seams.capture_logs():
+            fa = FileAnonymizer(anon_pwd=False, anon_ip=True, salt=case["salt"], preserve_suffix_v4=case["B"],
+                                preserve_suffix_v6=case["B"])
+            out = io.StringIO()
+            fa.anonymize_io(io.StringIO(text), out)
+        got = out.getvalue().splitlines()
+        ref = ipdom.make_v6(["md5", case["salt"]], case["B"])
+        pairs = {}
+        for (a, t), ln in zip(toks, got):
+            res.evals += 1
+            try:
+                fa_ = int(ipaddress.IPv6Address(ln.split()[1]))
+            except (ValueError, IndexError):
+                res.violation("output-token-not-an-address|6", "%r -> %r" % (t, ln), case)
+                continue
+            if a in pairs and pairs[a][0] != fa_:
+                res.violation("image-depends-on-spelling|6",
+                              "salt %r B=%d: %s written as %r maps to %s, written as %r to %s" % (
+                                  case["salt"], case["B"], ipaddress.IPv6Address(a), pairs[a][1],
+                                  ipaddress.IPv6Address(pairs[a][0]), t, ipaddress.IPv6Address(fa_)), case)
+            pairs.setdefault(a, (fa_, t))
+            if fa_ != ref.anonymize(a):
+                res.violation("file-pipeline-differs-from-the-family-mapping|6",
+                              "salt %r B=%d: %r -> %s, IpV6Anonymizer gives %s" % (
+                                  case["salt"], case["B"], t, ipaddress.IPv6Address(fa_),
+                                  ipaddress.IPv6Address(ref.anonymize(a))), case)
+        bad = check_map([(a, p[0]) for a, p in sorted(pairs.items())], 128)
+        if bad:
+            res.violation("cpl-not-preserved-by-applied-mapping|6", "salt %r B=%d: %s" % (case["salt"], case["B"], bad[1]), case)
+        res.nt((case["salt"], case["B"]))
+        res.out(len(pairs))
+        res.samples.append({"case": case, "tokens": len(toks), "example": toks[-1][1]})
+        return res
+
+
 def parts(tier, seed):
     return [SmallWidth(tier, seed), FullWidth(tier, seed), LazyReal(tier, seed), StatesPart(tier, seed),
-            LongHistory(tier, seed)]
+            LongHistory(tier, seed), FilePipeline(tier, seed)]
